@@ -1,5 +1,5 @@
 (** C07 -- Request dispatchers never deadlock. *)
-From Verif Require Import Base.Prelude M1.Client M1.ClientProofs M1.ClientOwn M1.ClientWake M1.Server M1.ServerInv.
+From Verif Require Import Base.Prelude M1.Client M1.ClientProofs M1.ClientOwn M1.ClientWake M1.Server M1.ServerInv M1.ServerWake.
 
 (** Client dispatcher, EVERY schedule (possible since the repairs F9 / F18: a completion never waits for room in the ready
     channel, and F34: the timer is never waited for): the message pump never blocks for good and never panics,
@@ -64,3 +64,34 @@ Theorem C07_client_wakeup_premises_met :
   (q s2 = [2] /\ pend s2 = 0 /\ Client.rdy s2 = false /\ Client.readyC s2 = 1).
 Proof. exact wake_premises_met. Qed.
 Print Assumptions C07_client_wakeup_premises_met.
+
+(** Server dispatcher, EVERY schedule, any number of clients: no lost wake-up.  A client with a queued request and nothing
+    outstanding has a request or ready token pending at the message pump ... *)
+Theorem C07_server_no_lost_wakeup : forall cap d ls c h t, Forall wf_slab ls ->
+  let s := srun ls (sinit cap d) in
+  qof s c = Some (h :: t) -> pendof s c = 0 -> In c (Server.reqC s) \/ In c (Server.readyC s).
+Proof. exact s_no_lost_wakeup_S1. Qed.
+Print Assumptions C07_server_no_lost_wakeup.
+
+(** ... and that wake-up is not held back by a stale timeout context (the subject of the repairs F13, F18, F19) ... *)
+Theorem C07_server_context_does_not_hold_back : forall cap d ls c, Forall wf_slab ls ->
+  let s := srun ls (sinit cap d) in
+  running s = true -> pendof s c = 0 ->
+  ctx_active s c = false \/ In c (Server.readyC s) \/ (mem c (removed s) = true /\ In c (Server.reqC s)).
+Proof. exact s_context_does_not_hold_back_S1. Qed.
+Print Assumptions C07_server_context_does_not_hold_back.
+
+(** ... so when no token is left for the pump, every client has an empty queue or a request outstanding. *)
+Theorem C07_server_quiescent_means_served : forall cap d ls c, Forall wf_slab ls ->
+  let s := srun ls (sinit cap d) in
+  Server.reqC s = [] -> Server.readyC s = [] -> qof s c = None \/ qof s c = Some [] \/ pendof s c <> 0.
+Proof. exact s_quiescent_means_served_S1. Qed.
+Print Assumptions C07_server_quiescent_means_served.
+
+Theorem C07_server_wakeup_premises_met :
+  let s1 := srun [SStart; Connect 1; SSend 1 11 true; SPumpReq; Disconnect 1; Connect 1; SSend 1 12 true] (sinit 0 true) in
+  let s2 := srun [SStart; Connect 1; SSend 1 11 true; SSend 1 12 true; SPumpReq; SPumpReq; SReply 1 11 0] (sinit 0 true) in
+  (qof s1 1 = Some [12] /\ pendof s1 1 = 0 /\ ctx_active s1 1 = true /\ mem 1 (removed s1) = true /\ Server.reqC s1 = [1; 1]) /\
+  (qof s2 1 = Some [12] /\ pendof s2 1 = 0 /\ ctx_active s2 1 = true /\ Server.readyC s2 = [1] /\ Server.reqC s2 = []).
+Proof. exact s_wake_premises_met. Qed.
+Print Assumptions C07_server_wakeup_premises_met.
